@@ -194,6 +194,17 @@ pub fn gen_hash_project(rng: &mut Rng, k: u64) -> Project {
                 main.push_str(&format!(".import * from \"lib{}.asm\"\n", i));
             }
             if rng.chance(1, 2) {
+                // labels sharing one address (stacked), nested scopes with equal names, a test, conditional code
+                main.push_str("stacked_a:\nstacked_b:\nstacked_c: nop\nouter: {\n    same: nop\n    inner: {\n        same: nop\n    }\n}\n");
+                main.push_str(".const FLAG = 1\n.if defined(FLAG) {\n    in_if: nop\n} else {\n    in_else: brk\n}\n");
+                main.push_str(".test \"t1\" {\n    t_label: lda #1\n    .assert cpu.a == 1\n    brk\n}\n");
+            }
+            if rng.chance(1, 2) {
+                // the same library once more, under a namespace
+                main.push_str(".import * as ns from \"lib0.asm\"\n");
+                main.push_str(".import * as ns2 from \"lib1.asm\"\n");
+            }
+            if rng.chance(1, 2) {
                 // diamond: two libs import a common file under different names
                 p.files.insert(
                     "common.asm".into(),
